@@ -29,7 +29,7 @@ LOCAL = "\nVF_LOC: t=%s | f=VF_REST ;\n"
 
 def plan(tier):
     n = 150 if tier == 'quick' else 3500
-    return [dict(kind='random', n=n) for _ in range(12)] + [dict(kind='templates', index=i, nshards=4, maxlen=4 if tier == 'quick' else 5) for i in range(4)]
+    return [dict(kind='random', n=n) for _ in range(12)] + [dict(kind='templates', index=i, nshards=6, maxlen=4 if tier == 'quick' else 5) for i in range(6)]
 
 
 def templates():
@@ -46,8 +46,12 @@ def templates():
     for iname, alts in inners.items():
         inner = alts[0] if len(alts) == 1 else ('alt', tuple(alts))
         for wname, wrap in (('grp', lambda e: ('grp', e)), ('opt', lambda e: ('opt', e)), ('star', lambda e: ('star', e)),
-                            ('plus', lambda e: ('plus', e)), ('named', lambda e: ('named', 'n', ('grp', e))), ('rule', None)):
-            for tail in (C, None):
+                            ('plus', lambda e: ('plus', e)), ('named', lambda e: ('named', 'n', ('grp', e))), ('rule', None),
+                            # an optional directly around a closure / optional / join (the wrappers Optional.optimized() may drop), cut inside a group
+                            ('opt-star', lambda e: ('opt', ('star', ('grp', e)))), ('opt-opt', lambda e: ('opt', ('opt', ('grp', e)))),
+                            ('opt-star-seq', lambda e: ('opt', ('star', ('seq', (('tok', 'd'), ('grp', e)))))),
+                            ('opt-join', lambda e: ('opt', ('join', ('tok', 'd'), ('grp', e), False, False)))):
+            for tail in (C, None, ('seq', (A, C))):
                 for order in ('cut-first', 'cut-second'):
                     rules = []
                     if wrap is None:
@@ -59,7 +63,7 @@ def templates():
                     opt2 = ('seq', (A, B, D))
                     opt3 = ('seq', (A, D))
                     body = ('alt', (opt1, opt2, opt3)) if order == 'cut-first' else ('alt', (opt3, opt1, opt2))
-                    yield f'{iname}/{wname}/{"tail" if tail else "notail"}/{order}', [('start', body)] + rules
+                    yield f'{iname}/{wname}/{"notail" if tail is None else "tail" if tail == C else "tail-ac"}/{order}', [('start', body)] + rules
 
 
 def run_shard(sh, kind, **kw):
